@@ -194,7 +194,29 @@ def run(c):
                     fail = f"Flatten({shape}, {s}, {e}) [{c['form']}].output_type = {res[1].output_type}, expected {exp}"
                 elif tval(res[1].input_type, "input") != list(shape):
                     fail = f"Flatten({shape}).input_type = {res[1].input_type}"
-                else:
+                if not fail and not c.get("stale"):
+                    # the typed node as LAST element of from_list (the auto Output is built from its type), the graph then extended
+                    # so that another, differently shaped node also feeds the Output, and inferred: the Flatten's own declaration
+                    # must still be what construction computed
+                    import nir
+                    from .common import quiet
+                    try:
+                        with quiet():
+                            node2 = try_build(r)[1]
+                            g = nir.NIRGraph.from_list(node2)
+                            g.nodes["late"] = nir.Input(np.array([sum(exp) + 1]))
+                            g.edges.append(("late", "output"))
+                            try:
+                                g.infer_types()
+                            except Exception:
+                                pass
+                        got3 = tval(node2.output_type, "output")
+                        if got3 != exp:
+                            fail = (f"Flatten({shape}, {s}, {e}) as last element of from_list, graph extended by a second producer for the "
+                                    f"Output and inferred: the Flatten now declares {got3}, construction and the utility say {exp}")
+                    except BaseException as ex:  # noqa: BLE001
+                        fail = f"from_list(Flatten({shape}, {s}, {e})) + extension raised {type(ex).__name__}: {ex}"
+                if not fail:
                     # a second, independently built node must not depend on what happened to the first one's types
                     res[1].output_type["output"][...] = 77
                     res2 = try_build(r)
